@@ -590,7 +590,14 @@ def st_array(tier):
                     off["n"] += 1
                 excluded += 1
         # page numbers
-        pages = list(draw(st.permutations(list(range(12)))))
+        # bus address width: the default 14 bits, or wider with banks in the pages only the extra bits reach
+        aw = draw(st.sampled_from([14, 14, 14, 15, 16]))
+        ps_ = A.bit_length() - 1
+        if aw == 14:
+            cand = list(range(12))
+        else:
+            cand = list(range(6)) + [(1 << (aw - ps_)) - 1 - i for i in range(3)] + [(1 << (14 - ps_)) + i for i in range(3)]
+        pages = list(draw(st.permutations(cand)))
         for o in objs:
             o["map"] = None if draw(st.integers(0, 7)) == 0 else pages.pop()
         for it in ords:
@@ -626,7 +633,7 @@ def st_array(tier):
             else:
                 s = {"op": "idle", "n": draw(st.integers(1, 2))}
             steps.append(s)
-        return {"dw": dw, "ordering": ordering, "paging": paging, "ic": ic, "objs": objs, "steps": steps, "steered": excluded}
+        return {"dw": dw, "ordering": ordering, "paging": paging, "ic": ic, "objs": objs, "steps": steps, "steered": excluded, "aw": aw}
     return case()
 
 
@@ -805,11 +812,11 @@ def _build_array(case):
     memmaps = {o["attr"]: _gather(o, "mem") for o in case["objs"]}
     try:
         with _quiet():
-            ba = csr_bus.CSRBankArray(source, address_map, data_width=dw, address_width=AW, paging=case["paging"], ordering=case["ordering"])
+            ba = csr_bus.CSRBankArray(source, address_map, data_width=dw, address_width=case.get("aw", AW), paging=case["paging"], ordering=case["ordering"])
     except Exception as ex:
         raise _DutCrash(ex)
     nm_ = 2 if case["ic"] == "shared2" else 1
-    masters = [csr_bus.Interface(data_width=dw, address_width=AW) for _ in range(nm_)]
+    masters = [csr_bus.Interface(data_width=dw, address_width=case.get("aw", AW)) for _ in range(nm_)]
     if not ba.get_buses():
         return None
     try:
@@ -878,7 +885,8 @@ def _expand_array(case, L, models, wins):
     cyc = []
     nb, nw = len(L["banks"]), len(wins)
     used = {b["map"] for b in L["banks"]} | {w["map"] for w in L["wins"]}
-    unowned = [p for p in range(1 << (AW - ps)) if p not in used][:4]
+    npg = 1 << (case.get("aw", AW) - ps)
+    unowned = ([p for p in range(npg) if p not in used][:3] + [p for p in range(npg - 1, -1, -1) if p not in used][:1])[:4]
     curpage = [0] * nw
     pagereg = {}                                     # bus address of a page register -> window index
     for wi, w in enumerate(L["wins"]):
@@ -1203,6 +1211,8 @@ def run_array(case):
         cls.append("nested-2")
     if L["consts"]:
         cls.append("constants")
+    if case.get("aw", AW) > AW:
+        cls.append("address-width=%d" % case["aw"])
     return ok(nt=len(readback) >= 2, cls=cls + sorted(hist), cycles=n)
 
 
